@@ -499,9 +499,8 @@ class Scanner(AsyncScript, ABC):
     async def teardown(self) -> None:
         await self.transport.close()
 
-        if self.db_handler is not None:
-            # Close the DB handler that was opened in `setup`
-            await self.db_handler.disconnect()
+        # The database connection is closed by entry_point() after the
+        # run_meta entry has been completed; do not close it here.
 
         if self.dumpcap:
             await self.dumpcap.stop()
